@@ -1190,7 +1190,7 @@ int main(int argc, char *argv[])
      if (watch && (bmax>0)) printf(" (bored=%d,bmax=%d)", bored, bmax);
      if (watch) printf("\n");
      if (trace) printf("%s\n",testS);
-     if (new_score < old_score) bored=0;
+     if (new_score < old_score) bored=0; else bored++;  // a move that does not improve the score yields no change
      old_score = new_score; 
      fflush(stdout);
    } else {
